@@ -646,6 +646,14 @@ class ModelWorld(engine.World):
       out.append([type(layer).__name__, attrs])
     return out
 
+  def _reg_loss(self, model):
+    """Total regularization penalty on the current weights."""
+    try:
+      losses = model.losses
+      return float(np.sum([float(l.numpy()) for l in losses])) if losses else 0.0
+    except Exception:  # pylint: disable=broad-except
+      return None
+
   def _var_meta(self, model):
     out = []
     for v in model.weights:
@@ -679,6 +687,7 @@ class ModelWorld(engine.World):
           "var_meta": self._var_meta(self.model),
           "layer_configs": self._layer_configs(self.model),
           "layer_attrs": self._layer_attrs(self.model),
+          "reg_loss": self._reg_loss(self.model),
           "ref": self._ref_state(),
           "spec": self.spec,
       }
@@ -1050,7 +1059,10 @@ class ModelWorld(engine.World):
         init = getattr(layer, attr, None)
         if init is not None and hasattr(init, "get_config") and not isinstance(
             init, str):
-          out.append(("%s.%s" % (layer.name, attr), init, "initializer", None))
+          var = getattr(layer, attr.split("_")[0], None)
+          out.append(("%s.%s" % (layer.name, attr), init, "initializer",
+                      (var, getattr(layer, "scale", None)) if var is not None
+                      else None))
       for attr in ("kernel_regularizer", "bias_regularizer"):
         regs = getattr(layer, attr, None)
         if isinstance(regs, (list, tuple)):
@@ -1107,6 +1119,43 @@ class ModelWorld(engine.World):
           elif kind == "regularizer" and arg is not None:
             a = np.asarray(obj(tf.identity(arg)))
             b = np.asarray(obj2(tf.identity(arg)))
+          elif (kind == "initializer" and arg is not None and
+                cls.__module__.startswith("tensorflow_lattice")):
+            var, scale = arg
+            kw = {}
+            try:
+              import inspect
+              if "scale" in inspect.signature(obj.__call__).parameters:
+                kw["scale"] = scale
+            except (TypeError, ValueError):
+              pass
+            shape = tuple(int(d) for d in var.shape)
+            a = np.asarray(obj(shape, dtype=var.dtype, **kw))
+            a2 = np.asarray(obj(shape, dtype=var.dtype, **kw))
+            if a.shape != a2.shape or not np.array_equal(a, a2):
+              continue  # unseeded random initializer: nothing to compare
+            b = np.asarray(obj2(shape, dtype=var.dtype, **kw))
+          elif kind == "layer":
+            # Shorthand arguments must be rebuilt into equivalent objects.
+            a_parts, b_parts = [], []
+            for attr, vname in (("kernel_regularizer", "kernel"),
+                                ("bias_regularizer", "bias")):
+              ra, rb = getattr(obj, attr, None), getattr(obj2, attr, None)
+              var = getattr(obj, vname, None)
+              if not isinstance(ra, (list, tuple)) or var is None:
+                continue
+              if not isinstance(rb, (list, tuple)) or len(ra) != len(rb):
+                a_parts.append(np.float64(len(ra)))
+                b_parts.append(np.float64(-1.0))
+                continue
+              for x, y in zip(ra, rb):
+                if callable(x) and callable(y):
+                  a_parts.append(np.asarray(x(tf.identity(var)), np.float64))
+                  b_parts.append(np.asarray(y(tf.identity(var)), np.float64))
+            if not a_parts:
+              continue
+            a = np.asarray([float(np.sum(v)) for v in a_parts])
+            b = np.asarray([float(np.sum(v)) for v in b_parts])
           else:
             continue
       except engine.SutError as e:
@@ -1164,6 +1213,13 @@ class ModelWorld(engine.World):
               "fmt": img["fmt"], "x": [c[r, 0] for c in img["probe_x"]],
               "original": img["probe_y"][r], "rebuilt": y[r]},
           margin=float(np.max(err)), tol=float(np.max(lim))))
+    rl = self._reg_loss(model)
+    if (img.get("reg_loss") is not None and rl is not None and
+        abs(rl - img["reg_loss"]) > 1e-5 * (1.0 + abs(img["reg_loss"]))):
+      out.append(engine.Violation(
+          "regularization_differs", {"fmt": img["fmt"],
+                                     "original": img["reg_loss"],
+                                     "rebuilt": rl}))
     ok, why = self._assert_status(model)
     if img["assert_ok"] and not ok:
       out.append(engine.Violation("constraints_lost", {"fmt": img["fmt"],
